@@ -1160,10 +1160,10 @@ class ExperimentInstanceDirectory(StorageStructurePathResolver):
         Currently this is the package name minus any extension if there is one.
         If the package can't be determined its the instance name minus any extension and time stamp'''
         if self.packagePath is not None:
-            basename = os.path.split(self.packagePath)[1]
+            basename = os.path.split(self.packagePath.rstrip(os.path.sep))[1]
             name = os.path.splitext(basename)[0]
         else:
-            basename = os.path.split(self.instancePath)[1]
+            basename = os.path.split(self.instancePath.rstrip(os.path.sep))[1]
             basename = os.path.splitext(basename)[0]
             components = basename.split("-")
             # A timestamped instance dir will contain at least three dashes in the name
@@ -1171,10 +1171,12 @@ class ExperimentInstanceDirectory(StorageStructurePathResolver):
             # Splitting on dashes should give ..., [Year], [Month], [Day+Time]
             # There will be an unknown number of initial components depending on if there are dashes in the
             # package name itself
-            if len(components) > 3:
+            # VV: Only drop the last 3 components if they do form a time stamp, and put the dashes of the package name
+            #     back: an instance must have the same name when it is loaded again as when it was created
+            if len(components) > 3 and re.match(r'^\d{4}-\d{2}-\d{2}T\d{6}(\.\d+)?$', '-'.join(components[-3:])):
                 components = components[:-3]
 
-            name = "".join(components)
+            name = "-".join(components)
 
         return name
 
